@@ -297,9 +297,11 @@ pub fn c15_child(spec_json: &str) -> i32 {
         Natural::None => {}
         Natural::RunDirIsFile => {
             std::fs::write("/run/clockbound", b"not a directory").unwrap();
+            NATURAL_IMMEDIATE.store(true, std::sync::atomic::Ordering::SeqCst);
         }
         Natural::PhcUnparsable => {
             std::fs::write(&phc_path, b"not-a-number\n").unwrap();
+            NATURAL_IMMEDIATE.store(true, std::sync::atomic::Ordering::SeqCst);
             phc_info = Some(clock_bound_d::PhcInfo {
                 refid: 0x50484330,
                 sysfs_error_bound_path: phc_path.clone(),
@@ -353,8 +355,13 @@ pub fn c15_child(spec_json: &str) -> i32 {
     let has_natural = case.natural != Natural::None;
     let has_fault = case.fault.is_some();
     std::thread::spawn(move || loop {
-        std::thread::sleep(Duration::from_millis(200));
+        std::thread::sleep(Duration::from_millis(50));
         let fired = dv::fault_fired_at().is_some();
+        // tell the parent (which looks into this namespace through /proc/<pid>/root) that the
+        // failure has happened: its 30 s deadline starts now
+        if (fired || NATURAL_AT.load(std::sync::atomic::Ordering::SeqCst) > 0 || (has_natural && !has_fault && real_now() - t_start > 0.0 && NATURAL_IMMEDIATE.load(std::sync::atomic::Ordering::SeqCst))) && !std::path::Path::new("/run/verif-fired").exists() {
+            let _ = std::fs::write("/run/verif-fired", b"1");
+        }
         if real_now() - t_start > 25.0 && has_fault && !fired && !has_natural {
             println!("{{\"not_fired\":true}}");
             std::process::exit(3);
@@ -377,6 +384,7 @@ pub fn c15_child(spec_json: &str) -> i32 {
 }
 
 static NATURAL_AT: std::sync::atomic::AtomicU64 = std::sync::atomic::AtomicU64::new(0);
+static NATURAL_IMMEDIATE: std::sync::atomic::AtomicBool = std::sync::atomic::AtomicBool::new(false);
 
 pub struct C15;
 
@@ -403,15 +411,24 @@ pub fn run_fault_case(case: &FaultCase) -> FaultObs {
     // the fault may need a few seconds to be reached (n-th iteration, chrony timeouts); the deadline
     // for the property is counted by the child from the fault itself
     let limit = 25.0 + DEADLINE_S + 10.0;
+    let marker = ns_path(child.id(), "/run/verif-fired");
+    let mut fired_seen: Option<f64> = None;
     loop {
         match child.try_wait() {
             Ok(Some(_)) => break,
             Ok(None) => {}
             Err(e) => return FaultObs::Broken(e.to_string()),
         }
-        if real_now() - t0 > limit {
+        if fired_seen.is_none() && marker.exists() {
+            fired_seen = Some(real_now());
+        }
+        let overdue = match fired_seen {
+            Some(t) => real_now() - t > DEADLINE_S + 1.0,
+            None => real_now() - t0 > limit,
+        };
+        if overdue {
             kill_and_wait(&mut child);
-            return FaultObs::Lingering { waited_s: real_now() - t0 };
+            return FaultObs::Lingering { waited_s: real_now() - fired_seen.unwrap_or(t0) };
         }
         real_sleep(Duration::from_millis(20));
     }
@@ -476,7 +493,7 @@ fn check_c15_case(case: &FaultCase, _env: &mut Env) -> Verdict {
         }
         FaultObs::NotFired => v.label("fault-point-not-reached"),
         FaultObs::Lingering { waited_s } => {
-            v.fail(format!("the daemon was still running {:.0} s after start with a failed worker: it lingers with part of the pipeline dead ({:?})", waited_s, case));
+            v.fail(format!("the daemon was still running {:.0} s after the worker failed: it lingers with part of the pipeline dead ({:?})", waited_s, case));
         }
         FaultObs::Broken(m) => v.fail(format!("harness problem: {}", m)),
     }
@@ -538,7 +555,7 @@ impl Property for C15 {
         check_c15_case(case, env)
     }
     fn max_shrink_iters(_t: Tier) -> u32 {
-        8
+        2
     }
     fn extra(tier: Tier, env: &mut Env, _seed: u64) -> Extra {
         // the enumerated fault set, 16 cases at a time
